@@ -205,6 +205,11 @@ func c9FloatText(v float64) string {
 	if math.IsNaN(v) {
 		return "nan"
 	}
+	if v == 0 {
+		// the sign of a zero is not compared: min / max over series the aggregator visits in Go map order return
+		// either zero when both occur (0 == -0), on correct code (Driver.C09.floatText does the same)
+		v = 0
+	}
 	return strconv.FormatUint(math.Float64bits(v), 10)
 }
 
